@@ -174,11 +174,17 @@ fn datum_ops(eng: &mut Eng) {
     let in_source = src.lines().filter(|l| l.starts_with("impl") && l.contains(" for Datum<")).count();
     eng.count("datum_operator_impls_in_source", in_source as i128);
     eng.count("datum_operator_impls_in_table", covered as i128);
-    if in_source != covered {
+    if in_source > covered {
+        // operator impls the table does not know: the check would silently not cover them
         panic!(
             "harness table covers {} Datum operator impls but src/datum.rs has {}: the C03 table must be extended",
             covered, in_source
         );
+    }
+    if in_source < covered {
+        // e.g. the impls are generated by macros: every instantiation of the table compiled against the
+        // crate, so all of them exist; whether there are *more* cannot be told from the text
+        eng.caps.push(format!("src/datum.rs spells out only {} of the {} operator impls of the table (macro-generated?): completeness of the table could not be cross-checked against the source text", in_source, covered));
     }
     eng.sample(|| "add_assign<Quantity>: Datum(t=i64::MIN+1, 6.5 mm) += Datum(t=-2, -2 mm) -> time -2".to_string());
 }
